@@ -1,4 +1,5 @@
 """C03 - likelihood accuracy does not degrade with tree size (no silent underflow)."""
+import math
 import random
 import sys
 
@@ -342,6 +343,83 @@ def history_body(c):
     return res
 
 
+@st.composite
+def batched_first_case(draw):
+    c = draw(base_case(bands=["subnormal"]))
+    # saturated columns sit at n log(1/4) whatever the branch lengths, so no row of the same data can lie far above
+    # another one: (mostly) conserved columns are drawn, whose likelihood falls from about 1/4 to 4^-n as branches grow,
+    # and the number of taxa is large enough for the saturated end to lie beyond underflow
+    c["pdiff"] = draw(st.sampled_from([0.0, 0.0, 0.02, [0.0, 0.0, 0.05, 0.0], [0.02, 0.0, 0.0, 0.0]]))
+    c["palette"] = [draw(logu(0.1, 1.0)) for _ in range(draw(st.integers(1, 3)))]
+    c["n"] = draw(st.integers(570, 900))
+    c["target"] = draw(fl(-743.5, -728.0))
+    c["target_above"] = draw(fl(-640.0, -50.0))
+    c["order"] = draw(st.permutations([0, 1, 2]))
+    c["with_beyond"] = draw(st.booleans())
+    return c
+
+
+def _multiplier_for(ref, base, target, lo=1e-3, hi=2000.0):
+    """branch-length multiplier whose smallest site log-likelihood is closest to target (geometric scan, then bisection
+    inside the bracketing pair); -> (multiplier, total, min site)"""
+    f = lambda m: ref.loglik([x * m for x in base])
+    grid = [lo * (hi / lo) ** (k / 39.0) for k in range(40)]
+    vals = [f(m) for m in grid]
+    best = min(range(40), key=lambda k: abs(min(vals[k][1]) - target))
+    out = (grid[best], vals[best][0], float(min(vals[best][1])))
+    for k in range(39):
+        a, b = min(vals[k][1]), min(vals[k + 1][1])
+        if (a - target) * (b - target) <= 0 and a != b:
+            x0, x1 = grid[k], grid[k + 1]
+            up = a < b
+            for _ in range(14):
+                xm = math.sqrt(x0 * x1)
+                tm = f(xm)
+                mm = float(min(tm[1]))
+                if abs(mm - target) < abs(out[2] - target):
+                    out = (xm, tm[0], mm)
+                if (mm < target) == up:
+                    x0 = xm
+                else:
+                    x1 = xm
+            break
+    return out
+
+
+def batched_first_body(c):
+    """the very first evaluation is batched: one row whose smallest site likelihood is deep in the subnormal range
+    (a few significant bits left), one row comfortably above it, possibly one row beyond underflow"""
+    n = c["n"]
+    ref = Ref(c, n)
+    base = lengths_for(n, c["palette"], 1.0, c["lseed"])
+    sub = _multiplier_for(ref, base, c["target"])
+    above = _multiplier_for(ref, base, c["target_above"])
+    beyond = _multiplier_for(ref, base, -775.0)
+    res = Res(nontrivial=False, tags={"model": c["model"]["name"], "band": "subnormal", "shape": c["shape"], "tip": c["tip"]})
+    if not (-744.0 <= sub[2] <= -725.0) or not (-660.0 <= above[2] <= -20.0):
+        res.labels = ("no_deep_row" if not (-744.0 <= sub[2] <= -725.0) else "no_partner_above",)
+        res.key = ("skip", c["shape"], n, c["dseed"] % 1000)
+        return res
+    rows = [sub, above]
+    if c["with_beyond"] and beyond[2] < -750.0:
+        rows.append(beyond)
+    rows = [rows[i] for i in c["order"] if i < len(rows)]
+    dic = build(c, n, ref, base, c["tip"])
+    like = dic["like"]
+    dic["bl"].tensor = torch.tensor([[x * m for x in base] for m, _, _ in rows])
+    refs = [t[1] for t in rows]
+    v = like()
+    ok = _cmp(res, v, refs, "first evaluation batched", n=n, min_site_loglik=[t[2] for t in rows], rescale_after=bool(like.rescale))
+    if ok:
+        # and again after the same values are assigned once more (the rescaling decision is kept)
+        dic["bl"].tensor = dic["bl"].tensor.clone()
+        _cmp(res, like(), refs, "second evaluation batched", n=n, min_site_loglik=[t[2] for t in rows], rescale_after=bool(like.rescale))
+    res.nontrivial = True
+    res.key = ("batched_first", c["shape"], c["model"]["name"], n, [round(t[0], 9) for t in rows], c["dseed"] % 1000, c["tip"])
+    res.labels = ("rows=%d" % len(rows), "deep<%d" % (5 * int(sub[2] // 5) + 5), c["shape"], "first_row_" + ("deep" if rows[0] is sub else "other"))
+    return res
+
+
 def audit_body(c):
     """numpy log-scaler pruning vs 40-digit mpmath pruning (harness self-audit)"""
     n = c.get("n") or aim_n(c)
@@ -387,6 +465,7 @@ def subchecks(tier):
     return [
         Sub("single", body, strategy=base_case, quick=48, thorough=1500, pretags=pretags),
         Sub("history", history_body, strategy=history_case, quick=16, thorough=400, pretags=pretags),
+        Sub("batched_first", batched_first_body, strategy=batched_first_case, quick=24, thorough=600, pretags=pretags),
         Sub("band_sweep", body, enumerate=sweep_cases, exhaustive=(tier == "thorough"), pretags=pretags),
         Sub("audit_oracle", audit_body, strategy=lambda: base_case(bands=["above_normal", "subnormal"]), quick=4, thorough=48),
     ]
